@@ -66,7 +66,10 @@ class SimDB:
         if truth:
             haps = self.truth_edits(haps)
         rds = reads.simulate(g, haps, rl=rl, depth=depth, ref=self.ref, neutral=self.neutral, **kw)
-        path = os.path.join(util.scratch_dir(), fname)
+        # generated databases own a directory (one per option set): same-named files of another option set with
+        # the same label must not be overwritten
+        d = os.path.dirname(self.path) if self.spec is not None and os.path.sep in str(self.path) else util.scratch_dir()
+        path = os.path.join(d, fname)
         reads.write_bam(path, g.chr, self.contig_len, rds)
         return path, rds
 
@@ -94,7 +97,14 @@ def gen_db(seed, genome, **opts):
     db.spec = spec
     db.genome = genome
     db.label = f"g{seed}{genome}"
-    db.path = dbgen.write(spec, util.scratch_dir(), f"{o.get('name', 'genx').lower()}_{seed}.yml")
+    # one directory per option set: databases generated from one seed with different options must not
+    # overwrite each other's file (the cached SimDB objects keep pointing at their path)
+    import hashlib
+    import os
+
+    sub = os.path.join(util.scratch_dir(), "db" + hashlib.sha1(repr(key).encode()).hexdigest()[:10])
+    os.makedirs(sub, exist_ok=True)
+    db.path = dbgen.write(spec, sub, f"{o.get('name', 'genx').lower()}_{seed}.yml")
     db.gene = dbgen.load(spec, genome)
     T = spec["truth"]["builds"][genome]
     db.ref = reads.Ref(db.gene, T["genome_seq"])
